@@ -134,6 +134,10 @@ func (r *c20Run) classify(op *c20Op, target, changed *c20Go) string {
 			return "attributetypes-returns-internal-map"
 		}
 	case "setStep", "appendStep":
+		if op.name == "appendStep" && target != nil && r.has(target, "from:psList") && r.has(target, "psAddAllSteps") {
+			// not a write to the listed path itself: append found the spare capacity AddAllSteps left in it
+			return "pathset-addallsteps-members-share-capacity"
+		}
 		if target != nil && r.has(target, "from:walk") {
 			return "walk-path-buffer-reused"
 		}
